@@ -394,6 +394,19 @@ class Sym:
                 if alts:
                     for f_ in set.intersection(*alts):
                         add(f_)
+            # a comparison of the result of a crate-local integer function with a constant
+            # (`if max_parts(w, h) > 1`): the paths that return a constant contradicting it are
+            # excluded, what the others established holds
+            if c[0] == "bin" and c[1] in _CMP and isinstance(v, bool):
+                for (call_, k_, op_) in ((c[2], c[3], c[1]), (c[3], c[2], _CMP_FLIP[c[1]])):
+                    if isinstance(call_, tuple) and call_ and call_[0] in ("call", "callat") and \
+                            isinstance(k_, tuple) and k_ and k_[0] == "const" and \
+                            isinstance(k_[1], int) and not isinstance(k_[1], bool):
+                        alts = call_alternatives(getattr(fn, "prog", None), call_,
+                                                 (op_, k_[1], v), "cmp")
+                        if alts:
+                            for f_ in set.intersection(*alts):
+                                add(f_)
             # `validator(..)?` continued / `if let Ok(..) = validator(..)`: what every Ok path of a
             # crate-local Result function established
             if c[0] == "discr" and v in (0, 1):
@@ -494,6 +507,12 @@ def project(e):
 _ALT_BUSY = set()
 
 
+_INT_TYS = ("u8", "u16", "u32", "u64", "u128", "usize", "i8", "i16", "i32", "i64", "i128", "isize")
+_CMP = {"Lt": lambda a, b: a < b, "Le": lambda a, b: a <= b, "Gt": lambda a, b: a > b,
+        "Ge": lambda a, b: a >= b, "Eq": lambda a, b: a == b, "Ne": lambda a, b: a != b}
+_CMP_FLIP = {"Lt": "Gt", "Le": "Ge", "Gt": "Lt", "Ge": "Le", "Eq": "Eq", "Ne": "Ne"}
+
+
 def call_alternatives(prog, e, val, want="bool"):
     """one set of facts (cond, bool) per path on which the crate-local function called by e
     returns `val` (want="bool": a bool function) or returns Ok(..) (want="ok": a function
@@ -511,6 +530,8 @@ def call_alternatives(prog, e, val, want="bool"):
     if want == "bool" and out_ty != "bool":
         return None
     if want == "ok" and "Result<" not in out_ty and "Option<" not in out_ty:
+        return None
+    if want == "cmp" and out_ty not in _INT_TYS:
         return None
     if g.id in _ALT_BUSY:
         return None
@@ -571,6 +592,17 @@ def call_alternatives(prog, e, val, want="bool"):
                             alts.append(fs | a_)
                         return
                     count[0] = 10 ** 6
+                    return
+                if want == "cmp":
+                    # val = (op, k, truth): paths whose constant result contradicts
+                    # `ret op k == truth` are dropped, the others keep their guards
+                    op_, k_, truth_ = val
+                    if r[0] == "const" and isinstance(r[1], int) and not isinstance(r[1], bool):
+                        if _CMP[op_](r[1], k_) != truth_:
+                            return
+                    else:
+                        fs.add((("bin", op_, _subst(r, mapping), ("const", k_, out_ty)), truth_))
+                    alts.append(fs)
                     return
                 if r[0] == "const" and isinstance(r[1], bool):
                     if r[1] != val:
